@@ -127,6 +127,8 @@ pub enum Shape {
     BoxDyn,
     Nest(u8),
     NonReporting,
+    /// composition of up to three wrappers around a probe, innermost first: (depth, w0, w1, w2)
+    Comp(u8, u8, u8, u8),
 }
 
 #[derive(Clone, Debug, PartialEq, Eq, Hash, Serialize, Deserialize)]
@@ -171,6 +173,7 @@ pub fn shape_strategy() -> BoxedStrategy<Shape> {
         1 => Just(Shape::BoxDyn),
         6 => (0u8..NESTS).prop_map(Shape::Nest),
         2 => Just(Shape::NonReporting),
+        14 => (1u8..=3, 0u8..NWRAP, 0u8..NWRAP, 0u8..NWRAP).prop_map(|(d, a, b, c)| Shape::Comp(d, a, if d >= 2 { b } else { 0 }, if d >= 3 { c } else { 0 })),
     ]
     .boxed()
 }
@@ -190,6 +193,8 @@ pub struct Ctx {
     /// targets not owned by any probe (only known through a Weak), kept alive by the caller
     side_ids: Vec<usize>,
     target_ids: Vec<usize>,
+    /// a `ManuallyDrop` wrapper was built: probes below it are never dropped
+    leaks: bool,
 }
 
 impl Ctx {
@@ -256,7 +261,7 @@ where
     OWNER.with(|o| o.set((0, 0, 0)));
     #[cfg(feature = "auto-collect")]
     let _ = rust_cc::config::config(|c| c.set_auto_collect(false));
-    let mut ctx = Ctx { has_cc: case.has_cc, targets: Vec::new(), probe_target: Vec::new(), reporting: true, side_ids: Vec::new(), target_ids: Vec::new() };
+    let mut ctx = Ctx { has_cc: case.has_cc, targets: Vec::new(), probe_target: Vec::new(), reporting: true, side_ids: Vec::new(), target_ids: Vec::new(), leaks: false };
     let c = build(&mut ctx);
     let owner = Cc::new(Owner { c });
     let owner_box = verif::object_snapshot(&owner).box_addr;
@@ -307,7 +312,7 @@ where
         let exp = if p.reporting { n_a } else { 0 };
         if p.trace != exp {
             let sig = format!("probe-trace-count/{:?}/{}", shape_class(case.shape), if p.trace < exp { "skipped" } else { "extra" });
-            vio(r, &sig, format!("position {} of {:?} was traced {} times, its owner {} times", i, case.shape, p.trace, n_a));
+            vio(r, &sig, format!("position {} of {} was traced {} times, its owner {} times", i, describe(case.shape), p.trace, n_a));
         }
     }
     // report log: exactly the owned Ccs, each as often as its holder was traced
@@ -354,7 +359,11 @@ where
     collect_cycles();
     let exp_fin = if cfg!(feature = "finalization") { 1 } else { 0 };
     let cls = shape_class(case.shape);
-    let leak_ok = leaks_probes && cyc.is_none();
+    let leaks = leaks_probes || ctx.leaks;
+    let held_ids: Vec<usize> = extras.iter().map(|e| e.0).collect();
+    // under a ManuallyDrop the probes' Ccs are never released: their targets may leak, unless the collector itself
+    // reclaims them as members of the garbage set (cycle routed through the container, no program handle)
+    let leak_ok = |i: usize| leaks && (cyc.is_none() || held_ids.contains(&i));
     if owner_reachable {
         // the cycle is still reachable through a program-held target: nothing may be reclaimed
         if OWNER.with(|o| o.get().2) != 0 || TARGET_DROP.with(|t| t.borrow().iter().any(|d| *d != 0)) {
@@ -381,7 +390,7 @@ where
             if held && *d != 0 {
                 vio(r, &format!("held-target-dropped/{}", cls), format!("target {} has a program handle but was dropped", i));
             }
-            if !held && *d != 1 && !leak_ok {
+            if !held && *d != 1 && !leak_ok(i) {
                 vio(r, &format!("target-not-reclaimed/{}", cls), format!("target {} was dropped {} times after the owner's release", i, d));
             }
         }
@@ -413,7 +422,7 @@ where
     for (i, p) in probes.iter().enumerate() {
         if p.fin != ofin {
             let sig = format!("probe-finalize-count/{}/{}", cls, if p.fin < ofin { "skipped" } else { "extra" });
-            vio(r, &sig, format!("position {} of {:?} was finalized {} times, its owner {} times", i, case.shape, p.fin, ofin));
+            vio(r, &sig, format!("position {} of {} was finalized {} times, its owner {} times", i, describe(case.shape), p.fin, ofin));
         }
     }
     let tdrop: Vec<u32> = TARGET_DROP.with(|t| t.borrow().clone());
@@ -421,9 +430,22 @@ where
         if ctx.side_ids.contains(&i) {
             continue;
         }
-        if *d != 1 && !leak_ok {
+        if *d != 1 && !leak_ok(i) {
             vio(r, &format!("target-drop-count-at-end/{}", cls), format!("target {} was dropped {} times by the end", i, d));
         }
+    }
+}
+
+pub fn describe(s: Shape) -> String {
+    match s {
+        Shape::Comp(d, a, b, c) => {
+            let mut t = String::from("Probe");
+            for w in [a, b, c].iter().take(d.clamp(1, 3) as usize) {
+                t = format!("{}<{}>", WRAP_NAMES[(*w % NWRAP) as usize], t);
+            }
+            t
+        }
+        other => format!("{:?}", other),
     }
 }
 
@@ -442,6 +464,7 @@ fn shape_class(s: Shape) -> &'static str {
         Shape::BoxDyn => "box-dyn",
         Shape::Nest(_) => "nested",
         Shape::NonReporting => "non-reporting-leaves",
+        Shape::Comp(..) => "composed",
     }
 }
 
@@ -549,6 +572,10 @@ pub fn run(case: &CCase, logging: bool) -> CResult {
             _ => exercise(case, rr, false, |ctx| AssertUnwindSafe(Box::new([(ctx.probe(), Some(ctx.probe())), (ctx.probe(), None)])), nohold),
         },
         Shape::NonReporting => non_reporting(case, rr),
+        Shape::Comp(d, a, b, c) => {
+            let k = [a, b, c];
+            d3::<Probe>(&k[..(d.clamp(1, 3) as usize)], case, rr)
+        }
     }
     r
 }
@@ -603,4 +630,172 @@ pub fn run_on_thread(case: &CCase, logging: bool) -> CResult {
         });
         r
     })
+}
+
+// ---------------------------------------------------------------------------------------------
+// Systematic compositions: every nesting of up to three wrappers (innermost first) around a
+// probe, built through blanket `Build` impls, so that no combination depends on a hand-picked list.
+
+pub const NWRAP: u8 = 15;
+pub const WRAP_NAMES: [&str; NWRAP as usize] = ["Vec", "[T;2]", "Box<[T]>", "Box", "Option", "Result::Ok", "Result::Err", "(T,)", "(u32,T)", "(T,T)", "RefCell", "ManuallyDrop", "AssertUnwindSafe", "[T;1]", "Box<dyn Trace>"];
+
+pub trait Build: Trace + Sized + 'static {
+    fn build(ctx: &mut Ctx) -> Self;
+}
+
+impl Build for Probe {
+    fn build(ctx: &mut Ctx) -> Self {
+        ctx.probe()
+    }
+}
+impl<T: Build> Build for Vec<T> {
+    fn build(ctx: &mut Ctx) -> Self {
+        vec![T::build(ctx), T::build(ctx)]
+    }
+}
+impl<T: Build> Build for [T; 2] {
+    fn build(ctx: &mut Ctx) -> Self {
+        [T::build(ctx), T::build(ctx)]
+    }
+}
+impl<T: Build> Build for [T; 1] {
+    fn build(ctx: &mut Ctx) -> Self {
+        [T::build(ctx)]
+    }
+}
+impl<T: Build> Build for Box<[T]> {
+    fn build(ctx: &mut Ctx) -> Self {
+        vec![T::build(ctx), T::build(ctx)].into_boxed_slice()
+    }
+}
+impl<T: Build> Build for Box<T> {
+    fn build(ctx: &mut Ctx) -> Self {
+        Box::new(T::build(ctx))
+    }
+}
+impl<T: Build> Build for Option<T> {
+    fn build(ctx: &mut Ctx) -> Self {
+        Some(T::build(ctx))
+    }
+}
+impl<T: Build> Build for Result<T, u8> {
+    fn build(ctx: &mut Ctx) -> Self {
+        Ok(T::build(ctx))
+    }
+}
+impl<T: Build> Build for Result<u8, T> {
+    fn build(ctx: &mut Ctx) -> Self {
+        Err(T::build(ctx))
+    }
+}
+impl<T: Build> Build for (T,) {
+    fn build(ctx: &mut Ctx) -> Self {
+        (T::build(ctx),)
+    }
+}
+impl<T: Build> Build for (u32, T) {
+    fn build(ctx: &mut Ctx) -> Self {
+        (7, T::build(ctx))
+    }
+}
+impl<T: Build> Build for (T, T) {
+    fn build(ctx: &mut Ctx) -> Self {
+        (T::build(ctx), T::build(ctx))
+    }
+}
+impl<T: Build> Build for RefCell<T> {
+    fn build(ctx: &mut Ctx) -> Self {
+        RefCell::new(T::build(ctx))
+    }
+}
+impl<T: Build> Build for ManuallyDrop<T> {
+    fn build(ctx: &mut Ctx) -> Self {
+        ctx.leaks = true;
+        ManuallyDrop::new(T::build(ctx))
+    }
+}
+impl<T: Build> Build for AssertUnwindSafe<T> {
+    fn build(ctx: &mut Ctx) -> Self {
+        AssertUnwindSafe(T::build(ctx))
+    }
+}
+
+/// `Box<dyn Trace>` holding a `T` (harness-side newtype only to make the composition nameable;
+/// its `Trace`/`Finalize` forward to the crate's impls for `Box<dyn Trace>`).
+pub struct DynOf<T>(Box<dyn Trace>, PhantomData<T>);
+unsafe impl<T: 'static> Trace for DynOf<T> {
+    fn trace(&self, ctx: &mut Context<'_>) {
+        self.0.trace(ctx);
+    }
+}
+impl<T: 'static> Finalize for DynOf<T> {
+    fn finalize(&self) {
+        self.0.finalize();
+    }
+}
+impl<T: Build> Build for DynOf<T> {
+    fn build(ctx: &mut Ctx) -> Self {
+        DynOf(Box::new(T::build(ctx)) as Box<dyn Trace>, PhantomData)
+    }
+}
+
+fn exercise_dyn(case: &CCase, r: &mut CResult, build: &mut dyn FnMut(&mut Ctx) -> Box<dyn Trace>) {
+    exercise(case, r, false, |ctx: &mut Ctx| build(ctx), nohold::<Box<dyn Trace>>)
+}
+
+fn comp_leaf<T: Build>(case: &CCase, r: &mut CResult) {
+    exercise_dyn(case, r, &mut |ctx| Box::new(T::build(ctx)) as Box<dyn Trace>)
+}
+
+macro_rules! dispatch {
+    ($name:ident, $next:ident) => {
+        fn $name<T: Build>(k: &[u8], case: &CCase, r: &mut CResult) {
+            if k.is_empty() {
+                return comp_leaf::<T>(case, r);
+            }
+            let rest = &k[1..];
+            match k[0] % NWRAP {
+                0 => $next::<Vec<T>>(rest, case, r),
+                1 => $next::<[T; 2]>(rest, case, r),
+                2 => $next::<Box<[T]>>(rest, case, r),
+                3 => $next::<Box<T>>(rest, case, r),
+                4 => $next::<Option<T>>(rest, case, r),
+                5 => $next::<Result<T, u8>>(rest, case, r),
+                6 => $next::<Result<u8, T>>(rest, case, r),
+                7 => $next::<(T,)>(rest, case, r),
+                8 => $next::<(u32, T)>(rest, case, r),
+                9 => $next::<(T, T)>(rest, case, r),
+                10 => $next::<RefCell<T>>(rest, case, r),
+                11 => $next::<ManuallyDrop<T>>(rest, case, r),
+                12 => $next::<AssertUnwindSafe<T>>(rest, case, r),
+                13 => $next::<[T; 1]>(rest, case, r),
+                _ => $next::<DynOf<T>>(rest, case, r),
+            }
+        }
+    };
+}
+fn d0<T: Build>(_k: &[u8], case: &CCase, r: &mut CResult) {
+    comp_leaf::<T>(case, r)
+}
+dispatch!(d1, d0);
+dispatch!(d2, d1);
+dispatch!(d3, d2);
+
+/// Every composition of depth 1..=3, each with every position owning a `Cc`, once without a
+/// cycle and once with the cycle routed through each of the first positions.
+pub fn fixed_grid(max_depth: u8) -> Vec<CCase> {
+    let mut v = Vec::new();
+    for d in 1..=max_depth.min(3) {
+        let n = NWRAP as u32;
+        for code in 0..n.pow(d as u32) {
+            let a = (code % n) as u8;
+            let b = ((code / n) % n) as u8;
+            let c = ((code / n / n) % n) as u8;
+            let shape = Shape::Comp(d, a, b, c);
+            v.push(CCase { shape, has_cc: u64::MAX, cycle: 255, extra: 0 });
+            v.push(CCase { shape, has_cc: u64::MAX, cycle: (code % 8) as u8, extra: 0 });
+            v.push(CCase { shape, has_cc: u64::MAX, cycle: (code % 3) as u8, extra: 1 << (code % 5) });
+        }
+    }
+    v
 }
